@@ -598,6 +598,8 @@ pub fn run_c17(ctx: &RunCtx) {
     ctx.set_rule("generated programs (valid and with semantic faults) x (a) 3 re-layouts, (b) 2 injective renamings of user identifiers to fresh names (ASCII and Unicode), (c) every split point at a top-level statement boundary, (d) a second run. oracle: graph (Debug rendering, which contains symbol ids but no names or ranges), symbol list (name, type) and ordered diagnostic kinds are identical / identical up to the renaming / prefixes; Program and SymbolTable equal under PartialEq on the second run. non-trivial = >=4 statements and >=1 nested scope; distinct by model term");
     ctx.assume("renaming never touches keywords, built-in constants, U, standard-gate names or hardware qubits");
     let n = ctx.pick(15_000u64, 2_000_000u64);
+    // a case costs ~8 analyses: keep shrinking short
+    ctx.shrink_iters.store(2_000, std::sync::atomic::Ordering::Relaxed);
     for (name, profile) in [("plain", Profile::plain()), ("faulty", Profile::faulty()), ("scope-stress", Profile::scope_stress())] {
         ctx.random(name, n, 1400, |src| {
             let prog = gen_program(src, &profile);
